@@ -9,7 +9,28 @@ def _run(seed):
         drivers.deep_book_history(seed)
         return
     tick = {0: 0.5, 5: 0.25, 10: 0.125, 15: 2.5}.get(seed % 20, 1.0)        # power-of-two ticks are checked exactly (C19); 2.5 has a two-digit mantissa
-    drivers.market_history(seed, offgrid=(seed % 3 == 0 or tick not in (0.5, 1.0)), tick=tick)
+    m, _events = drivers.market_history(seed, offgrid=(seed % 3 == 0 or tick not in (0.5, 1.0)), tick=tick)
+    range_queries(m)
+
+
+def range_queries(m):
+    """C06 through the plural getters: a list of times is answered only if NONE of them lies in the future (wherever it stands in the list), and then with the recorded values"""
+    from .monitors import ContractViolation
+    t = m.get_time()
+    F = "Market._extract_sequential_data_by_time"
+    getters = [(m.get_n_buy_orders, m.get_n_buy_order), (m.get_n_sell_orders, m.get_n_sell_order), (m.get_executed_volumes, m.get_executed_volume)]
+    for plural, single in getters:
+        for times, future in (([t + 1, t], True), ([t, t + 1], True), ([0, t + 2, t], True), ([t, 0], False), (list(range(t + 1)), False), ([t], False)):
+            try:
+                got = plural(times)
+            except AssertionError:
+                if not future:
+                    raise ContractViolation(F, "C06 a query for recorded times is answered", (plural.__name__, times, t))
+                continue
+            if future:
+                raise ContractViolation(F, "C06 a query that contains a time later than the current time is refused", (plural.__name__, times, t))
+            if got != [single(q) for q in times]:
+                raise ContractViolation(F, "C06 one value per requested time, each the value recorded for that time", (plural.__name__, times, got))
 
 
 def search(seed, tier, obligation, hints):
